@@ -163,6 +163,120 @@ pub fn gen(tier: &str, seed: u64) -> Vec<String> {
             }
         }
     }
+    // (1d) a key that is listed more than once in the outputs of one physical key: alone (or in a
+    // chord) and again in a chord with another modifier, through tap-hold / multi / fork / tap-dance /
+    // switch, held long enough for the later listing to be the one that is down. The oracle's clause
+    // "the last-listed key of a chord before its modifiers" decides (single layer, any action form).
+    let mut rd = Rng::new(seed ^ 0xC14D); // its own stream: the families below keep their cases
+    let n1d = if thorough { 600 } else { 150 };
+    for i in 0..n1d {
+        let k = *rd.pick(&["q", "w", "x", "1"]);
+        let m1 = *rd.pick(&["S", "C", "A", "RA"]);
+        let m2 = *rd.pick(&["S", "C", "A", "RA", "C-S"]);
+        let first = match rd.below(3) {
+            0 => format!("{m1}-{k}"),
+            _ => k.to_string(),
+        };
+        let second = format!("{m2}-{k}");
+        let (act, hold) = match i % 5 {
+            0 => (format!("(tap-hold 200 200 {first} {second})"), 300),
+            1 => (format!("(multi {first} {second})"), 10),
+            2 => (format!("(fork {first} {second} (b))"), 10),
+            3 => (format!("(tap-dance 100 ({first} {second}))"), 10),
+            _ => (format!("(switch (b) {second} break () {first} break)"), 10),
+        };
+        let cfg = format!("(defsrc a b)\n(deflayer l0 {act} b)\n");
+        let (a, b) = (code("a"), code("b"));
+        let mut h = vec![];
+        // every second case holds the other key first (the fork / switch then takes its other branch)
+        let with_b = rd.chance(1, 2);
+        if with_b {
+            h.push(KEv::L(HEv::Press(0, b)));
+            h.push(KEv::L(HEv::Tick(5)));
+        }
+        if i % 5 == 3 {
+            // tap once, then press again and hold: the second action of the dance
+            h.push(KEv::L(HEv::Press(0, a)));
+            h.push(KEv::L(HEv::Tick(20)));
+            h.push(KEv::L(HEv::Release(0, a)));
+            h.push(KEv::L(HEv::Tick(20)));
+        }
+        h.push(KEv::L(HEv::Press(0, a)));
+        h.push(KEv::L(HEv::Tick(hold + rd.range(0, 200) as u32)));
+        h.push(KEv::Rep(a));
+        h.push(KEv::L(HEv::Tick(30)));
+        h.push(KEv::Rep(a));
+        h.push(KEv::L(HEv::Tick(5)));
+        h.push(KEv::L(HEv::Release(0, a)));
+        h.push(KEv::L(HEv::Tick(5)));
+        if with_b {
+            h.push(KEv::L(HEv::Release(0, b)));
+        }
+        h.push(KEv::L(HEv::Tick(300)));
+        lines.push(mk_kline("KAN", false, &cfg, &h));
+    }
+    // (1e) many layers held at once: a chain of layer-while-held keys, the key under test mapped on
+    // the OLDEST held layer (or on the base layer) and transparent above; 9-16 layers held when the
+    // repeat arrives (the layer order used to keep 12 entries: a 13th held layer pushed the oldest
+    // one out, and with 12 held the base layer did not fit)
+    {
+        let chain = ["f1", "f2", "f3", "f4", "f5", "f6", "f7", "f8", "f9", "f10", "f11", "f12", "1", "2", "3", "4"];
+        let n = chain.len();
+        for on_base in [false, true] {
+            let mut cfg = format!("(defsrc a {})\n", chain.join(" "));
+            for l in 0..=n {
+                let first = if l == 0 && on_base {
+                    "x"
+                } else if l == 1 && !on_base {
+                    "y"
+                } else {
+                    "_"
+                };
+                cfg.push_str(&format!("(deflayer l{l} {first}"));
+                for j in 0..n {
+                    if j == l {
+                        cfg.push_str(&format!(" (layer-while-held l{})", j + 1));
+                    } else {
+                        cfg.push_str(" _");
+                    }
+                }
+                cfg.push_str(")\n");
+            }
+            // what a repeat of `a` stands for while that output is down (model-free completeness clause)
+            cfg.push_str(&format!(";; repeat-expect {} {}\n", code("a"), code(if on_base { "x" } else { "y" })));
+            for held in [9usize, 11, 12, 13, 14, 16] {
+                for key_first in [true, false] {
+                    let mut h = vec![];
+                    h.push(KEv::L(HEv::Press(0, code(chain[0]))));
+                    h.push(KEv::L(HEv::Tick(3)));
+                    if key_first {
+                        h.push(KEv::L(HEv::Press(0, code("a"))));
+                        h.push(KEv::L(HEv::Tick(3)));
+                    }
+                    for c in &chain[1..held] {
+                        h.push(KEv::L(HEv::Press(0, code(c))));
+                        h.push(KEv::L(HEv::Tick(3)));
+                    }
+                    if !key_first {
+                        h.push(KEv::L(HEv::Press(0, code("a"))));
+                        h.push(KEv::L(HEv::Tick(3)));
+                    }
+                    h.push(KEv::Rep(code("a")));
+                    h.push(KEv::L(HEv::Tick(10)));
+                    h.push(KEv::Rep(code("a")));
+                    h.push(KEv::L(HEv::Tick(3)));
+                    h.push(KEv::L(HEv::Release(0, code("a"))));
+                    h.push(KEv::L(HEv::Tick(3)));
+                    for c in chain[..held].iter().rev() {
+                        h.push(KEv::L(HEv::Release(0, code(c))));
+                        h.push(KEv::L(HEv::Tick(2)));
+                    }
+                    h.push(KEv::L(HEv::Tick(50)));
+                    lines.push(mk_kline("KAN", false, &cfg, &h));
+                }
+            }
+        }
+    }
     // (2) whole grammar incl. layers, tap-hold, tap-dance, one-shot, fork, switch, chords, unmod
     let n2 = if thorough { 25000 } else { 2500 };
     for i in 0..n2 {
